@@ -477,3 +477,13 @@ package dag
 //@   safety
 //@   modifies heap(alloc), ghost eff.exec
 //@   records eff.condfail = old(eff.condfail) + ite(err != nil, 1, 0)
+
+// The DAG-level environment handed to every step (C11): one KEY=value text per entry, in order.
+//@ fn (Env).String(e) (r)
+//@   props C11
+//@   ensures [C11 entry_is_key_equals_value] r == e.Key + "=" + e.Value
+//@ fn (Envs).All(e) (r)
+//@   props C11
+//@   modifies heap(alloc)
+//@   ensures [C11 one_text_per_entry_in_order] len(r) == len(e) && (forall i int :: 0 <= i && i < len(e) ==> r[i] == e[i].Key + "=" + e[i].Value)
+//@   loop 0 invariant len(envs) == idx + 1 && (forall i int :: 0 <= i && i <= idx ==> envs[i] == e[i].Key + "=" + e[i].Value)
